@@ -227,8 +227,9 @@ theorem impl_eq_spec_Transaction : implementsSpec env desc_tlb_Transaction Spec.
 
 
 /-! wallet v5 (r1): the list of out-actions, the extended actions and the signed / extension bodies. The extended
-actions (`chain`) have a model and this schema tie, but no round-trip theorem (C03): the decoder follows the next
-reference of the cell whenever there is one, which the greedy / non-greedy split of `RT` does not express. -/
+actions (`chain`) have a model, this schema tie and — since round 3 — their own round-trip theorem in C03
+(`CodecOK_w5ExtendedActions`, `roundtrip_wallet_MessageV5`: the third mode "follows the next reference whenever there is
+one"). -/
 open TongoGen.TlbTypes in
 theorem impl_eq_spec_OutList : implementsSpec env desc_wallet_W5Actions Spec.OutList = true := by decide +kernel
 open TongoGen.TlbTypes in
